@@ -219,6 +219,23 @@ def gen_case(rng, k, tier):
             lines.append("init")
         elif r == 2:
             lines += ["reinfo", "hdr 1 " + hexs(st["headers"][0]), "hdr 0 " + hexs(st["headers"][1]), "hdr 0 " + hexs(st["headers"][2]), "init"]
+        elif r == 3 and kind >= 8:
+            # the half-rate flag flipped under a live decoder (the library re-reads it on every call)
+            lines.append("half %d" % rng.below(2))
+            tied = False          # the model decodes with the setting fixed at init: these cases count for memory safety only
+            meta["live_halfrate_toggle"] = True
+    if k % 24 == 7 and "init" in lines:
+        # initialised at one half-rate setting, switched to the other under the live decoder, more packets decoded
+        first = rng.below(2)
+        i = lines.index("init")
+        lines.insert(i, "half %d" % first)
+        j = next((x for x in range(i + 2, len(lines)) if lines[x].startswith("pkt ")), len(lines) - 1)
+        lines.insert(j + 1, "half %d" % (1 - first))
+        for _ in range(3):
+            pkt, _x = pdgen.gen_packet(rng, st)
+            lines.append("pkt %s %d %d %d" % (hexs(pkt), -1, 0, 1))
+        tied = False
+        meta["live_halfrate_toggle"] = True
     lines.append("end")
     return "case %d\n%s\n" % (k, "\n".join(lines)), meta, tied
 
@@ -226,7 +243,7 @@ def gen_case(rng, k, tier):
 def check(rep, tier, seed):
     rep.assumptions = ["objects are set up with vorbis_info_init / vorbis_comment_init and zeroed vorbis_dsp_state / vorbis_block; dsp-level calls (synthesis, blockin, "
                        "pcmout, read, restart) are only issued after a vorbis_synthesis_init that returned 0",
-                       "vorbis_synthesis_halfrate is switched only while no decoder state exists"]
+                       "vorbis_synthesis_halfrate switched under a live decoder is exercised for memory safety only (the model keeps the setting of the init call)"]
     rep.coverage["trusted_base"] = pdx.TRUSTED + ["ASan + UBSan(bounds, integer-divide-by-zero, null, return, unreachable, vla-bound), allocation cap 2 GiB, 150 s watchdog per case, "
                                                   "default 8 MiB stack; atexit guard for exit() inside the library"]
     pr = common.prove("C02", clean=(tier == "thorough"))
@@ -234,12 +251,14 @@ def check(rep, tier, seed):
     rng = SplitMix(seed * 1000003 + 2)
     wd = common.workdir("C02")
     n = 480 if tier == "quick" else 20000
-    texts, metas = [], []
+    texts, metas, untied = [], [], set()
     FIELD_NO[0] = 0
     for k in range(n):
-        t, m, _ = gen_case(rng, k, tier)
+        t, m, tied = gen_case(rng, k, tier)
         texts.append(t)
         metas.append(m)
+        if not tied:
+            untied.add(str(k))
     res = pdx.run(texts, wd)
     bad_prop = list(res["crashes"])
     dist = {"cases": n, "headers_accepted": 0, "headers_rejected": {}, "init_ok": 0, "init_failed": 0, "packets_ok": 0, "packets_rejected": {}, "mutations": {}}
@@ -280,8 +299,12 @@ def check(rep, tier, seed):
     rep.coverage["distribution"] = dist
     if bad_prop:
         rep.violation("property fails on the implementation", {"failures": bad_prop[:10], "seed": seed})
-    elif res["ties"]:
-        rep.violation("correspondence Setup.v/PacketDec.v <-> headerin/synthesis no longer holds", {"differences": res["ties"][:10], "seed": seed},
+    ties = [d for d in res["ties"] if str(d.get("case")) not in untied]
+    dist["cases_memory_safety_only"] = len(untied)
+    if bad_prop:
+        pass
+    elif ties:
+        rep.violation("correspondence Setup.v/PacketDec.v <-> headerin/synthesis no longer holds", {"differences": ties[:10], "seed": seed},
                       found_input=False)
     if not pr["ok"]:
         rep.violation("proof obligations of Properties_C02.v not discharged: " + "; ".join(pr["failed"]),
